@@ -84,12 +84,16 @@ func replayRing(args []string) error {
 		return err
 	}
 	n, steps := 0, 0
+	dd := vh.NewDedup()
 	err = vh.ForEachVector(args[0], func(_ int, raw []byte) error {
 		var v ringVec
 		if err := json.Unmarshal(raw, &v); err != nil {
 			return err
 		}
 		n++
+		if len(v.Ops) > 0 {
+			dd.Add(raw)
+		}
 		if n%997 == 1 {
 			res.Sample(v)
 		}
@@ -125,7 +129,7 @@ func replayRing(args []string) error {
 	if err != nil {
 		return err
 	}
-	return res.Close(map[string]any{"replayed": n, "steps": steps})
+	return res.Close(map[string]any{"replayed": n, "steps": steps, "distinct_nontrivial": dd.N()})
 }
 
 func opsKey(ops []ringOp) string {
@@ -426,12 +430,16 @@ func replaySets(args []string) error {
 	}
 	n, steps := 0, 0
 	probe := []int{0, 1, 2, 3, 4}
+	dd := vh.NewDedup()
 	err = vh.ForEachVector(args[0], func(_ int, raw []byte) error {
 		var v setVec
 		if err := json.Unmarshal(raw, &v); err != nil {
 			return err
 		}
 		n++
+		if len(v.Ops) > 0 {
+			dd.Add(raw)
+		}
 		if n%9973 == 1 {
 			res.Sample(v)
 		}
@@ -462,7 +470,7 @@ func replaySets(args []string) error {
 	if err != nil {
 		return err
 	}
-	return res.Close(map[string]any{"replayed": 2 * n, "steps": steps})
+	return res.Close(map[string]any{"replayed": 2 * n, "steps": steps, "distinct_nontrivial": 2 * dd.N()})
 }
 
 // recordSets drives both implementations with random histories over a large
